@@ -614,6 +614,15 @@ def run_plan(plan, root, scratch, mode="history", only=None, observe="all",
         # line event of a later load) - a function of the plan, not of allocation counters
         import gc
         gc.disable()
+    # the same recursion headroom below this frame in every child, wherever on its parent's
+    # stack the fork happened (history, warm pristine, cold pristine, replay): set ONCE at
+    # process start, so that whatever the package later does to the limit accumulates
+    depth = 0
+    f = sys._getframe()
+    while f is not None:
+        depth += 1
+        f = f.f_back
+    sys.setrecursionlimit(1000 + depth)
     reset_root(root)
     private_env(scratch)
     os.chdir(root)
